@@ -3,6 +3,7 @@ import CsVerif.Model.C20
 import CsVerif.Model.C15
 import CsVerif.Model.C09
 import CsVerif.Model.C02
+import CsVerif.Model.C17
 import CsVerif.Gen.Extract
 /-
 C01 — Beacon configuration extraction
@@ -20,7 +21,8 @@ that stops at the first yield (`BeaconConfig.from_file`) sees exactly the head o
 would be raised after the first yield is never seen by it (`fromFile` below only looks at the end of the trace
 when nothing was yielded).
 
-What is a parameter rather than computed here:
+What is a parameter of the functions up to `fromFile` (section "nothing left as a parameter" at the end instantiates
+all three: `fromFileReal` is what the driver runs and what the end-to-end theorems are about):
   * `det : Option Nat` — the answer of `XorEncodedFile.from_file(fobj)` (C09's subject): `some c` = a view at
     nonce offset `c` was returned, `none` = `ValueError`.  The answer depends on the file content only (the
     detector starts with `seek(0, SEEK_END)` and absolute seeks), so the three calls made by the code agree.
@@ -354,5 +356,94 @@ def extractSpec (data : Bytes) (xorKeys : List Bytes) (allKeys : Bool) (det : Op
       match guard with
       | some g => .ok g
       | none => .error .valueError
+
+/-! ### `BeaconConfig.from_file` with nothing left as a parameter
+
+`fromFileReal` composes the pieces above with the detector (`detectRun`: C09's `fromFileReal` plus the state a failing run
+leaves behind), the residual key order the code computes (`leftKeys`) and the Guardrails fallback
+(`C17.fromFileFallback`).  It is the function the driver runs on the `ext` stream.  `Model/C08.lean` composes the same
+pieces (its `search` / `fhFor` / `viewFile` are these definitions; `Props/C01.lean` `fromFile_C08_factors` proves that
+`C08.fromFile` is `fromFileReal` followed by C08's `finish`, i.e. the settings decoding as an `Except` and the PE
+artifacts, which are not part of this property). -/
+
+/-- the ordinary file the XorEncoded view at nonce offset `c` refines (C09 `history_refines_all_seeks`): the Guardrails
+scan is run on it (the same modelling step as `Model/C08.lean` / `Driver/C17.lean` `ffx`) -/
+def viewFile (f : PyFile) (c : Nat) : PyFile := { data := decodedView f.data c, pos := 0, kind := f.kind }
+
+/-- `try: XorEncodedFile.from_file(fobj) except ValueError: fobj` -/
+def fhFor (f : PyFile) (det : Option Nat) : PyFile :=
+  match det with
+  | some c => viewFile f c
+  | none => f
+
+/-- `next(iter_beacon_config_blocks(fobj, xor_keys, all_xor_keys=…), None)`: the first yielded block, if any.
+`det` = answer of the detector, `failPos` = where a failing detection leaves `fobj` (the 4-gram counter of the
+all-keys retry reads from there).  The residual key order is computed only when the first pass found nothing, as in
+the code.  An exception raised before the first yield propagates. -/
+def search (B : Nat) (f : PyFile) (ks : List Bytes) (allKeys : Bool) (det : Option Nat) (failPos : Nat) :
+    Py (Option Result) :=
+  let first := pass B f (effKeys ks) true det
+  match first.1 with
+  | y :: _ => .ok (some y)
+  | [] =>
+    match first.2 with
+    | some e => .error e
+    | none =>
+      if allKeys then                                       -- if not found and all_xor_keys:
+        match leftKeys B f det failPos ks with
+        | .error e => .error e
+        | .ok left =>
+          let second := pass B f (effKeys left) true det
+          match second.1 with
+          | y :: _ => .ok (some y)
+          | [] =>
+            match second.2 with
+            | some e => .error e
+            | none => .ok none
+      else .ok none
+
+/-- what `from_file` returns, as far as this property is concerned: `config_block`, `xorkey`, `xorencoded`,
+`guardrails` (the `GuardrailMetadata` record of a Guardrails recovery, else `None`) -/
+structure Extracted where
+  block : Bytes
+  xorkey : Bytes
+  xorencoded : Bool
+  guardrails : Option C17.Meta
+  deriving DecidableEq, Repr
+
+/-- `bconfig.settings_tuple = tuple(iter_settings(config_block))` -/
+def Extracted.settings (x : Extracted) : List C02.Setting := C02.iterSettings x.block
+
+def Result.extracted (r : Result) : Extracted := ⟨r.block, r.xorkey, r.xorencoded, none⟩
+
+/-- the Guardrails fallback of `from_file` on `fxor`: `bconfig = cls(grconfig.unmasked_beacon_config)`,
+`bconfig.guardrails = grconfig`, `bconfig.xorkey = grconfig.beacon_xor_key` (`xorencoded` keeps its default `False`);
+`ValueError("No valid Beacon configuration found")` otherwise -/
+def guardFallback (B : Nat) (fxor : PyFile) : Py Extracted :=
+  match C17.fromFileFallback fxor B with                   -- for grconfig in iter_guardrail_configs_with_beacon(fxor): …
+  | .error e => .error e                                   -- raise ValueError("No valid Beacon configuration found")
+  | .ok m =>
+    match m.unmaskedBeaconConfig with
+    | some cfg => .ok ⟨cfg, m.beaconXorKey, false, some m⟩
+    | none => .error .valueError
+
+/-- `BeaconConfig.from_file(fobj, xor_keys, all_xor_keys)` — detector, both search phases, all-keys retry with the
+computed key order, Guardrails fallback; `B = io.DEFAULT_BUFFER_SIZE`.  `from_bytes` is this with `f.kind = .bytesIO`
+and `f.pos = 0`, `from_path` with `.osFile`. -/
+def fromFileReal (B : Nat) (f : PyFile) (ks : List Bytes) (allKeys : Bool) : Py Extracted :=
+  match detectRun B f with                                  -- XorEncodedFile.from_file(fobj) (inside try/except ValueError)
+  | .error e => .error e
+  | .ok (dx, fFail) =>
+    let det := dx.map (·.nonceOff)
+    match search B f ks allKeys det fFail.pos with
+    | .error e => .error e
+    | .ok (some y) => .ok y.extracted                       -- bconfig = cls(config_block); … return bconfig
+    | .ok none => guardFallback B (fhFor f det)             -- try: fxor = XorEncodedFile.from_file(fobj) except ValueError: fxor = fobj
+
+/-- first candidate of the declarative specification: given keys, then (all-keys mode) the residual keys -/
+def searchSpec (data : Bytes) (xorKeys : List Bytes) (allKeys : Bool) (det : Option Nat) (left : List Bytes) : Option Cand :=
+  match (candidates (views data det) (effKeys xorKeys)).head? with
+  | some c => some c
+  | none => if allKeys then (candidates (views data det) (effKeys left)).head? else none
 
 end C01
